@@ -271,6 +271,12 @@ W_F06C = {"k": "st", "cells": [[["r", L(1)]], [["t", 0], ["x"]]], "iters": [], "
           "roots": [["o", L(0)]], "ops": [["seq", 0], ["seq", 0], ["seq", 0]]}
 
 
+# F-06d: concat is built on itertools.chain, which ends for good when advancing to the next input raises
+W_F06D = {"k": "st", "cells": [[["x"]]], "iters": [], "nev": 0,
+          "roots": [["concat", [["o", L(0)], ["o", cons(5, None)]]]],
+          "ops": [["first", 0], ["first", 0], ["count", 0]]}
+
+
 # ---- multi-threaded scenarios ----------------------------------------------------------------
 def mt(cells, threads, nev, roots=None, iters=None):
     return {"k": "mt", "cells": cells, "iters": iters or [], "nev": nev,
@@ -356,6 +362,7 @@ def cases(tier, rng):
     for w in ST_WITNESSES:
         yield w
     yield W_F06C
+    yield W_F06D
     # ---- multi-threaded: ~30 quick / ~300 thorough child runs -----------------------------
     reps = 10 if thorough else 1
     for _ in range(reps):
@@ -385,14 +392,14 @@ def cases(tier, rng):
             yield mt_free(rng, rng.choice([2, 2, 3]), tick=rng.random() < 0.4, itseq=rng.random() < 0.2,
                           throw=rng.random() < 0.2)
     # ---- single-threaded histories ---------------------------------------------------------
-    n = 12000 if thorough else 1300
+    n = 12000 if thorough else 800
     for _ in range(n):
         yield st_random(rng)
     for _ in range(n // 2):
         yield st_random(rng, allow_touch=False, allow_throw=False)
-    for _ in range(n // 2):
+    for _ in range(n * 5 // 8):
         yield st_pipeline(rng)
-    for _ in range(n // 3):
+    for _ in range(n * 3 // 8):
         yield st_iter(rng)
 
 
